@@ -46,8 +46,16 @@ def gen_history(seed, mode, nops, policy, fsz, tsz, unit, step, slack, utc, bump
                     continue
             k += 1
             a, o, x, y = lab
-            out = rp.do(lab)
+            try:
+                out = rp.do(lab)
+            except common.MachineryError:
+                break                      # e.g. the file to delete is not there any more: the history ends here
             res['labels'].append(lab)
+            if out.get('fatal'):
+                for v in rp.mon.violations[nv:]:
+                    res['violations'].append((v[0], v[1], v[2], len(res['labels']) - 1))
+                res['fatal'] = repr(out['exc'])
+                break
             if a == 'tick':
                 clock = x
             elif a == 'write':
@@ -98,6 +106,8 @@ def _choose(rnd, rp, world, mode, policy, clock, closed, maxused, need_floor, nr
             t = rnd.choice([0, 0, clock, max(1, maxused), max(1, maxused - 1), maxused + 1, rnd.randint(1, maxused + 2)])
         if t > 58:
             return None
+        if t and rnd.random() < 0.3:
+            t += 100                  # the caller's timestamp has a sub-microsecond fraction (time.time() floats do)
         return ('write', W, size, t)
     if a == 'tick':
         t = clock + rnd.choice((1, 1, 2)) if policy == 'mono' else max(1, clock + rnd.choice((-2, -1, 1, 1, 2)))
